@@ -24,6 +24,9 @@ import (
 	"math/big"
 	"net/http"
 	"net/http/httptest"
+	"net/url"
+	"os"
+	"path/filepath"
 	"sort"
 	"strings"
 	"sync"
@@ -211,6 +214,10 @@ func (i *vpIdP) document(r *http.Request) (string, interface{}) {
 			"permissions": map[string]interface{}{"project_access": map[string]interface{}{"access_level": 30}, "group_access": map[string]interface{}{"access_level": 30}}}
 	case strings.Contains(p, "transitiveMemberOf") || strings.Contains(p, "memberOf"):
 		return "graph-groups", map[string]interface{}{"value": []interface{}{map[string]interface{}{"id": "gid1", "displayName": "G1"}}, "@odata.nextLink": ""}
+	case strings.Contains(p, "/hasMember/"):
+		return "google-hasmember", map[string]interface{}{"isMember": true}
+	case strings.Contains(p, "/admin/directory/") && strings.Contains(p, "/members/"):
+		return "google-member", map[string]interface{}{"email": "user@example.com", "status": "ACTIVE", "type": "USER", "role": "MEMBER"}
 	case strings.Contains(p, "tokeninfo"):
 		return "tokeninfo", map[string]interface{}{"expires_in": 3000, "email": "user@example.com", "aud": "client-id"}
 	}
@@ -304,6 +311,43 @@ func (i *vpIdP) session() *sessions.SessionState {
 
 var vpVerifiedClaims = map[string]bool{"iss": true, "sub": true, "aud": true, "exp": true, "iat": true, "nbf": true, "nonce": true, "at_hash": true, "c_hash": true}
 
+// the Google Admin SDK client talks to admin.googleapis.com through http.DefaultTransport: requests for googleapis.com
+// hosts are sent to the fake identity provider of the configuration under test instead
+var (
+	vpGoogleMu     sync.Mutex
+	vpGoogleTarget *url.URL
+	vpGoogleOnce   sync.Once
+)
+
+type vpGoogleRewrite struct{ base http.RoundTripper }
+
+func (t vpGoogleRewrite) RoundTrip(req *http.Request) (*http.Response, error) {
+	vpGoogleMu.Lock()
+	target := vpGoogleTarget
+	vpGoogleMu.Unlock()
+	if target != nil && strings.HasSuffix(req.URL.Hostname(), "googleapis.com") {
+		r := req.Clone(req.Context())
+		r.URL.Scheme, r.URL.Host, r.Host = target.Scheme, target.Host, ""
+		return t.base.RoundTrip(r)
+	}
+	return t.base.RoundTrip(req)
+}
+
+func vpGoogleServiceAccount(i *vpIdP) string {
+	vpGoogleOnce.Do(func() { http.DefaultTransport = vpGoogleRewrite{base: http.DefaultTransport} })
+	u, _ := url.Parse(i.srv.URL)
+	vpGoogleMu.Lock()
+	vpGoogleTarget = u
+	vpGoogleMu.Unlock()
+	creds, _ := json.Marshal(map[string]string{"type": "service_account", "client_email": "proxy@example.iam.gserviceaccount.com", "private_key_id": "verif",
+		"private_key": string(pem.EncodeToMemory(&pem.Block{Type: "RSA PRIVATE KEY", Bytes: x509.MarshalPKCS1PrivateKey(vpKey)})),
+		"token_uri":   i.srv.URL + "/service-account/token"})
+	dir, _ := os.MkdirTemp("", "verif-google-sa-")
+	f := filepath.Join(dir, "sa.json")
+	_ = os.WriteFile(f, creds, 0o600)
+	return f
+}
+
 type vpProvider struct {
 	name  string
 	build func(i *vpIdP) (Provider, error)
@@ -359,6 +403,11 @@ func vpProviders() []vpProvider {
 			c.GitLabConfig.Group = []string{"g1"}
 		}),
 		mk("google", options.GoogleProvider, nil),
+		mk("google-groups", options.GoogleProvider, func(i *vpIdP, c *options.Provider) {
+			c.GoogleConfig.Groups = []string{"group1@example.com", "group2@example.com"}
+			c.GoogleConfig.AdminEmail = "admin@example.com"
+			c.GoogleConfig.ServiceAccountJSON = vpGoogleServiceAccount(i)
+		}),
 		mk("github", options.GitHubProvider, func(_ *vpIdP, c *options.Provider) {
 			c.GitHubConfig.Org = "org1"
 			c.GitHubConfig.Team = "team1"
@@ -400,7 +449,10 @@ var vpCalls = []vpCall{
 			if e := p.EnrichSession(context.Background(), s); e != nil {
 				return false, e
 			}
-			_, _ = p.Authorize(context.Background(), s)
+			// ... and the callback saves the session only if the provider authorises it
+			if ok, aerr := p.Authorize(context.Background(), s); aerr != nil || !ok {
+				return false, aerr
+			}
 		}
 		return err == nil && s != nil, err
 	}},
@@ -549,7 +601,7 @@ func driveProviders(t *testing.T, out *vEmitter) {
 				for k := range muts {
 					m, lbl := muts[k], labels[k]
 					dst := &jobs
-					if vpCorpus[pv.name+"/"+c.name+"/"+d+lbl] || (c.name == "Redeem" && (m.code != 0 || d == "bothtokens")) {
+					if vpCorpus[pv.name+"/"+c.name+"/"+d+lbl] || ((c.name == "Redeem" || c.name == "RefreshSession") && m.code != 0) || (c.name == "Redeem" && d == "bothtokens") {
 						dst = &first // minimised earlier failures, and every error status at every endpoint a login reads, run on every run
 					}
 					*dst = append(*dst, func() {
@@ -586,8 +638,14 @@ func driveProviders(t *testing.T, out *vEmitter) {
 						}
 						// an error status at ANY endpoint a login reads gives no session, except where the lookup is documented as
 						// best-effort (vpTolerated)
-						if c.name == "Redeem" && sess && m.code != 0 && d != "token" && !vpTolerated[pv.name+"/"+d] {
+						if c.name == "Redeem" && sess && m.code != 0 && d != "token" && !vpTolerated[pv.name+"/"+d] && !(d == "google-hasmember" && m.code == 400) {
 							out.Violation("providers/"+pv.name+"/Redeem/"+d+"/session-despite-failed-lookup", "a login completed although an endpoint it depends on answered with an error status",
+								map[string]interface{}{"provider": pv.name, "document": d, "status": m.code})
+						}
+						// ... and so does a refresh: an error status at an endpoint the refresh reads extends no session
+						if c.name == "RefreshSession" && sess && m.code != 0 && d != "token" && !vpTolerated[pv.name+"/"+d] && !vpRefreshTolerated[pv.name+"/"+d] &&
+							!(d == "google-hasmember" && m.code == 400) { // hasMember answering 400 is the documented cue to ask members.get instead, which answers
+							out.Violation("providers/"+pv.name+"/RefreshSession/"+d+"/session-extended-despite-failed-lookup", "a refresh reported success although an endpoint it depends on answered with an error status",
 								map[string]interface{}{"provider": pv.name, "document": d, "status": m.code})
 						}
 						out.Obs(key, panicked == "" && cerr != nil, vL(vS(pv.name), vS(c.name), vS(d), vS(lbl), vBool(panicked != ""), vBool(cerr != nil)))
@@ -636,6 +694,11 @@ var vpTolerated = map[string]bool{"oidc/keys": true, "oidc-profile-claims/keys":
 	// allowed-groups authorisation that follows then refuses a user who needed that project
 	"gitlab/gitlab-project": true}
 
+// lookups a REFRESH tolerates by design: the Azure provider re-reads e-mail and groups after a refresh and, when that fails,
+// logs it and keeps what the session held (azure.go redeemRefreshToken: the error is discarded on purpose); the refresh
+// itself rests on the token endpoint's answer
+var vpRefreshTolerated = map[string]bool{"azure-other-mails/profile": true, "azure/profile": true}
+
 // providers whose login verifies the tokens it receives against the configured issuer, audience and key set
 var vpVerifying = map[string]bool{"oidc": true, "oidc-profile-claims": true, "keycloak-oidc": true, "adfs": true, "azure": true, "azure-other-mails": true,
 	"entra-id": true, "gitlab": true}
@@ -648,6 +711,7 @@ func vpTemplate(i *vpIdP, doc string) interface{} {
 		"keys": "/keys", "bitbucket-emails": "/2.0/user/emails", "github-emails": "/user/emails", "github-orgs": "/user/orgs", "github-teams": "/user/teams",
 		"github-repo": "/repos/a/b", "bitbucket-teams": "/2.0/teams", "bitbucket-repos": "/2.0/repositories/x", "gitlab-project": "/api/v4/projects/x",
 		"graph-groups": "/v1.0/me/transitiveMemberOf", "tokeninfo": "/tokeninfo", "profile": "/profile",
+		"google-hasmember": "/admin/directory/v1/groups/g/hasMember/u", "google-member": "/admin/directory/v1/groups/g/members/u",
 	}
 	if doc == "token" {
 		r, _ := http.NewRequest(http.MethodPost, "http://x/oauth/token", nil)
